@@ -197,3 +197,18 @@ Theorem C15_source_array_to_vec : forall fails T N a st, zlen a = Z.of_nat N ->
   HeapProg.call fails T N gen_heap_table "From<GenericArray> for Vec<T>" (VArrV a) st =
   (v <- array_to_vec fails T a ;; ret (VVecV v)) st.
 Proof. exact tie_array_to_vec. Qed.
+
+(* ---- T1: the one-expression bodies this property's code consists of besides the modelled core, as they stand
+        in the source now (coq/gen/GenSigs.v gen_thin_bodies) ---- *)
+From Coq Require Import String.
+From GA Require Import SigTie.
+From GAGen Require Import GenSigs.
+Local Open Scope string_scope.
+
+Theorem C15_source_thin_bodies :
+  thin_of "GenericArray<T,N>" "into_boxed_slice" = Some "unsafe { Box :: from_raw (core :: ptr :: slice_from_raw_parts_mut (Box :: into_raw (self) as * mut T , N :: USIZE ,)) }" /\
+  thin_of "GenericArray<T,N>" "into_vec" = Some "Vec :: from (self . into_boxed_slice ())" /\
+  thin_of "GenericArray<T,N>" "try_from_vec" = Some "Self :: try_from_boxed_slice (vec . into_boxed_slice ())" /\
+  thin_of "TryFrom<Box<[T]>> for GenericArray<T,N>" "try_from" = Some "Vec :: from (value) . try_into ()" /\
+  thin_of "IntoIterator for Box<GenericArray<T,N>>" "into_iter" = Some "GenericArray :: into_vec (self) . into_iter ()".
+Proof. repeat split. Qed.
